@@ -234,7 +234,7 @@ func ruleMatcherKeys(c *Ctx, rule string) {
 		return
 	}
 	n := 0
-	seenKeyed := map[[2]string]bool{}
+	seenKeyedN := map[string]int{}
 	for _, site := range callSitesOf(p, find) {
 		args := site.Common().Args
 		mc, ok := args[len(args)-1].(*ssa.MakeClosure)
@@ -313,11 +313,7 @@ func ruleMatcherKeys(c *Ctx, rule string) {
 		sort.Strings(cases)
 		for _, cs := range cases {
 			n++
-			root := site.Parent()
-			for root.Parent() != nil {
-				root = root.Parent()
-			}
-			seenKeyed[[2]string{root.Name(), strings.TrimPrefix(cs, "*imapclient.")}] = true
+			seenKeyedN[strings.TrimPrefix(cs, "*imapclient.")]++
 			key := fmt.Sprintf("%s matcher, case %s", fnKey(site.Parent()), cs)
 			var bad []truePoint
 			np := 0
@@ -357,31 +353,32 @@ func ruleMatcherKeys(c *Ctx, rule string) {
 	// matcher, or the handler stopped scanning the pending list with a matcher
 	// (first-of-type lookup) — delivers a response about something else, or
 	// drops the response of a command that is not the oldest of its type.
+	// (keyed by command type and multiplicity, not by handler, so that moving a
+	// matcher into a helper function changes nothing)
 	for _, want := range keyedMatcherTable {
-		if seenKeyed[want] {
+		if seenKeyedN[want.cmd] >= want.n {
 			continue
 		}
-		h := p.Func("imapclient", "Client", want[0])
-		if h == nil {
-			c.unresolvedRoot("(*Client)." + want[0] + " (keyed response handler)")
-			continue
-		}
-		c.fail(rule, fmt.Sprintf("(*Client).%s matcher, case *imapclient.%s is keyed on the response", want[0], want[1]), h.Pos(),
-			fmt.Sprintf("%s no longer selects the pending %s by a relation between the command and the decoded response (no findPendingCmdFunc matcher case comparing a field of the command with the response): with several such commands in flight a response is attached to the wrong one or dropped", want[0], want[1]))
+		c.fail(rule, fmt.Sprintf("matcher cases keyed on the response for *imapclient.%s", want.cmd), find.Pos(),
+			fmt.Sprintf("%d findPendingCmdFunc matcher case(s) select a pending %s by a relation between the command and the decoded response (%s), where %d are needed: the relation was dropped from a matcher or a handler stopped scanning the pending list with a matcher, so with several such commands in flight a response is attached to the wrong one or dropped", seenKeyedN[want.cmd], want.cmd, want.what, want.n))
 	}
 }
 
-// keyedMatcherTable: handler, command type (confirmed on the pinned tree).
-var keyedMatcherTable = [][2]string{
-	{"handleESearch", "SearchCommand"},
-	{"handleFetch", "FetchCommand"},
-	{"handleList", "SelectCommand"},
-	{"handleMetadata", "GetMetadataCommand"},
-	{"handleQuota", "GetQuotaCommand"},
-	{"handleQuota", "GetQuotaRootCommand"},
-	{"handleQuotaRoot", "GetQuotaRootCommand"},
-	{"handleStatus", "ListCommand"},
-	{"handleStatus", "StatusCommand"},
+// keyedMatcherTable: command type, number of keyed matcher cases, what keys
+// them (confirmed on the pinned tree).
+var keyedMatcherTable = []struct {
+	cmd  string
+	n    int
+	what string
+}{
+	{"SearchCommand", 1, "ESEARCH correlator tag"},
+	{"FetchCommand", 1, "FETCH message number / UID"},
+	{"SelectCommand", 1, "LIST mailbox of the SELECT"},
+	{"GetMetadataCommand", 1, "METADATA mailbox"},
+	{"GetQuotaCommand", 1, "QUOTA root"},
+	{"GetQuotaRootCommand", 2, "QUOTA root and QUOTAROOT mailbox"},
+	{"ListCommand", 1, "STATUS mailbox of a LIST-STATUS entry"},
+	{"StatusCommand", 1, "STATUS mailbox"},
 }
 
 // ruleNilableFields: C11.f. Belief consistency on nil-able pointer fields of
